@@ -42,7 +42,7 @@ class Pack:
 
     # -- registration --------------------------------------------------------------
     def add(self, c):
-        self.contracts[(c.file, c.qualname)] = c
+        self.contracts[(c.file, c.qualname) if not c.variant else (c.file, c.qualname, c.variant)] = c
         if c.file not in self.files:
             self.files.append(c.file)
             m = SourceModule.get(c.file)
